@@ -44,17 +44,17 @@ Fixpoint results_ok (p : pstate) (os : list op) : Prop :=
       results_ok (fst (pstep p o)) os'
   end.
 
-(* the two classes of runs in which the real crate (and this model of it) is known NOT to return
-   from-scratch results: a request that hits an uninitialised function ingredient, and a snapshot
-   in which flattening drops a dependency that had untracked reads *)
+(* the class of runs in which the real crate (and this model of it) is known NOT to return
+   from-scratch results: a request that hits an uninitialised function ingredient.  (Before fix
+   e43c20c there was a second class: a snapshot in which flattening dropped a dependency with
+   untracked reads; such a memo is now serialised as untracked, see
+   ProofsFlatten.snap_memo_tracked.) *)
 Fixpoint known_class_free (p : pstate) (os : list op) : Prop :=
   match os with
   | [] => True
   | o :: os' =>
       (match o with
        | OGet _ => snd (pstep p o) <> PPanic PUninit
-       | OSnapshot => forall q m, d_memo (ps_db p) q = Some m -> pfam (fst q) = true -> m_val m <> None ->
-                                  lost_untracked pfam (d_memo (ps_db p)) sfuel (m_edges m) = false
        | _ => True
        end) /\
       known_class_free (fst (pstep p o)) os'
